@@ -1,10 +1,13 @@
 From Coq Require Import Extraction ExtrOcamlBasic.
-From QV Require Import Model.ZoneTree Model.ZoneValid Model.RdataBuf Spec.ZoneLookupS Spec.ZoneValidS.
+From QV Require Import Model.ZoneTree Model.ZoneValid Model.RdataBuf Spec.ZoneLookupS Spec.ZoneValidS
+  Model.ZoneReal Spec.ZoneRealS.
+From QV Require Model.RdataM Model.NameWire Spec.RdataEqS.
 Extraction Language OCaml.
 Separate Extraction
   zone_new zone_add zone_build zone_lookup zone_lookup_addrs zone_lookup_all
-  zone_soa zone_ns zone_iter_by_node zone_iter_by_rrset node_iter_sm req_simple
+  zone_soa zone_ns zone_iter_by_node zone_iter_by_rrset node_iter_sm
   lc accepted add_verdict exists_name spec_rrsets spec_rrset single_of spec_nodes_of
   spec_lookup spec_lookup_addrs spec_lookup_all spelled spell_lookup spell_addrs spell_all
   buf_insert buf_rdatas dedup_first
-  zone_validate spec_validate parse_name_simple norm_issue issue_is_error spec_is_warning.
+  zone_validate spec_validate norm_issue issue_is_error spec_is_warning
+  req_real parse_real spec_req spec_rdata_name RdataM.equals NameWire.parse_uncompressed_name.
